@@ -1069,7 +1069,10 @@ def run(ctx):
                 "(dims/shape length mismatch), fixed regression trees incl. a Sequence holding a real numpy "
                 "structured array, "
                 "foreign-style texts from the harness's own printer (Url/Int/UInt, anonymous dimensions, random "
-                "keyword case, random inter-token whitespace) and a malformed stream (mutated texts); Grids (trees, "
+                "keyword case, random inter-token whitespace; names of variables and containers spelled RAW in ~20% "
+                "of the draws: blank, '.', '&', '(', ']' ... inside a name, expected quoted - own_quote, the harness's "
+                "independent reference) and a malformed stream (mutated texts); identifiers starting with 'dap4' (3%); "
+                "Grids (trees, "
                 "foreign texts, input of the Lean foreign printer) hold their maps in dimension order (25%), reversed "
                 "(15%) or shuffled (60%), with maps that are no dimension of the array inserted anywhere (30%, half of "
                 "them first), a dimension without a map (15%), repeated (15%) or anonymous (15%) dimension names, "
@@ -1080,8 +1083,9 @@ def run(ctx):
     ctx.assumptions = ["DDS text is ASCII (DDSResponse encodes with 'ascii'); the model's character classes are the "
                        "ASCII restrictions of \\w, \\d, str.lstrip and re.IGNORECASE",
                        "np.dtype(s).char, int(), '{}'.format(int) and urllib.parse.quote are trusted Python/numpy",
-                       "names starting with 'dap4' (DAP4 path handling in _quote/DatasetType.__setitem__) are outside "
-                       "the model"]
+                       "names starting with 'dap4' whose first 8 characters are not all name_regexp characters "
+                       "(_quote passes them through raw; DAP4 path handling in DatasetType.__setitem__) are outside "
+                       "the model; identifiers starting with 'dap4' are generated"]
     ctx.proof_phase()
     explore(ctx, ctx.tier)
     return ctx.finish(search=lambda c: explore(c, "thorough", search=True), witnesses={})
